@@ -389,6 +389,80 @@ def ext_enc(kind, arg):
     return hx(bytes(obj.compose())[4:])
 
 
+# ---- opportunistic TLS ------------------------------------------------------------------------------
+def tpkt_enc(h):
+    return c_frame('tpkt', '3', '' if h == '-' else h)
+
+
+def _cotp_cls(code):
+    from cryptoparser.tls.rdp import COTPConnectionRequest, COTPConnectionConfirm
+    return {14: COTPConnectionRequest, 13: COTPConnectionConfirm}[int(code)]
+
+
+def cotp_enc(code, dst, src, h):
+    return hx(_cotp_cls(code)(src_ref=int(src), dst_ref=int(dst), user_data=bytes.fromhex('' if h == '-' else h)).compose())
+
+
+def p_cotp(ty, h):
+    cls = _cotp_cls(ty)
+    obj, n = cls.parse_immutable(bytes.fromhex(h))
+    if type(obj) is not cls:
+        return 'WRONGTYPE %s' % type(obj).__name__
+    return '%d,%d;%s n=%d' % (obj.src_ref, obj.dst_ref, hx(obj.user_data), n)
+
+
+def rdp_neg_enc(ty, flags, protos):
+    from cryptoparser.tls import rdp
+    cls, fcls = {1: (rdp.RDPNegotiationRequest, rdp.RDPNegotiationRequestFlags), 2: (rdp.RDPNegotiationResponse, rdp.RDPNegotiationResponseFlags)}[int(ty)]
+    fl = [f for f in fcls if int(flags) & int(f)]
+    if sum(int(f) for f in fl) != int(flags):
+        raise TypeError('not constructible: unknown flag bits')
+    pr = [p for p in rdp.RDPProtocol if int(protos) & int(p)]
+    if sum(int(p) for p in pr) != int(protos):
+        raise TypeError('not constructible: unknown protocol bits')
+    return hx(cls(fl, pr).compose())
+
+
+def mysql_pkt_enc(seq, h):
+    return c_frame('mysql', seq, '' if h == '-' else h)
+
+
+def mysql_ssl41(caps, mx, cs):
+    from cryptoparser.tls import mysql
+    cl = [c for c in mysql.MySQLCapability if int(caps) & int(c)]
+    if sum(int(c) for c in cl) != int(caps) or not int(caps) & int(mysql.MySQLCapability.CLIENT_PROTOCOL_41):
+        raise TypeError('not constructible')
+    csm = [m for m in mysql.MySQLCharacterSet if m.value.code == int(cs)]
+    if not csm:
+        raise TypeError('not constructible')
+    return hx(mysql.MySQLHandshakeSslRequest(set(cl), int(mx), csm[0]).compose())
+
+
+def mysql_ssl320(caps, mx):
+    from cryptoparser.tls import mysql
+    cl = [c for c in mysql.MySQLCapability if int(caps) & int(c)]
+    if sum(int(c) for c in cl) != int(caps) or int(caps) & int(mysql.MySQLCapability.CLIENT_PROTOCOL_41):
+        raise TypeError('not constructible')
+    return hx(mysql.MySQLHandshakeSslRequest(set(cl), int(mx)).compose())
+
+
+def ovpn_ctl(op, sess, acks, remote, pid, h):
+    from cryptoparser.tls import openvpn
+    if int(op) != int(openvpn.OpenVpnPacketControlV1.get_op_code()):
+        raise TypeError('not constructible')
+    a = _zs(acks)
+    obj = openvpn.OpenVpnPacketControlV1(int(sess), a, int(remote) if a else None, int(pid), bytes.fromhex('' if h == '-' else h))
+    return hx(obj.compose())
+
+
+def ovpn_tcp(h):
+    return c_frame('ovpn', '-', '' if h == '-' else h)
+
+
+def pg_ssl():
+    return c_frame('pgssl', '-', '')
+
+
 # ---- SSH ------------------------------------------------------------------------------------------------
 def ssh_pad(L):
     from cryptoparser.ssh.record import SshRecordInit
@@ -847,6 +921,8 @@ def impl_vec_line(line):
 
 
 COMMANDS = {
+    'tpktenc': tpkt_enc, 'cotpenc': cotp_enc, 'pcotp': p_cotp, 'rdpnegenc': rdp_neg_enc, 'mysqlpktenc': mysql_pkt_enc,
+    'mysqlssl41': mysql_ssl41, 'mysqlssl320': mysql_ssl320, 'ovpnctl': ovpn_ctl, 'ovpntcp': ovpn_tcp, 'pgssl': pg_ssl,
     'sshpad': ssh_pad, 'mpintspec': mpint_spec, 'kexenc': kex_enc, 'kexdec': kex_dec,
     'rsablob': blob_cmd(rsa_blob), 'dssblob': blob_cmd(dss_blob), 'edblob': blob_cmd(ed_blob),
     'keytag': keytag_cmd, 'dsenc': ds_enc, 'mxenc': mx_enc, 'nameenc': name_enc, 'txtenc': txt_enc, 'rrsigenc': rrsig_enc,
